@@ -988,6 +988,14 @@ pub fn check_case(case: &Case, rec: &mut Rec) -> CaseResult {
                             if sc.data().as_ptr() != exp.as_ptr() {
                                 return Err(fail("offset_length-window", format!("offset_length({}, {}) window starts at the wrong byte", o, l)));
                             }
+                            // the same window reached by another route is the same scope: ReadScope's equality (and
+                            // read_cache, which keys on it) covers the window's position, not only its bytes
+                            // (after seeded miss C14-13)
+                            if let Ok(other) = st.ctxt.scope().offset(o).offset_length(0, l) {
+                                if other != sc {
+                                    return Err(fail("scope-identity-differs-by-route", format!("offset_length({}, {}) != offset({}).offset_length(0, {}) although both are the same window of the same buffer", o, l, o, l)));
+                                }
+                            }
                             st.win = (st.pos() + o, st.pos() + o + l);
                         } else {
                             st.win = (st.win.1, st.win.1);
